@@ -402,6 +402,10 @@ func (m *mstate) itemLane(n *NodeSpec, v, i int, it *Item, budget, wait int, tim
 	if it.Pay == "nilitem" && n.PrepShape == "anys" {
 		idesc, execArg = "nil", "nil"
 	}
+	if it.DupOf > 0 && it.DupOf-1 < i {
+		idesc = itemTok(n.ID, v, it.DupOf-1) // the same value as that item
+		execArg = idesc
+	}
 	if execArg == "" {
 		execArg = idesc
 	}
@@ -500,6 +504,8 @@ func (m *mstate) runBatch(n *NodeSpec) (string, string) {
 			toks = append(toks, "ER("+itemTok(n.ID, v, i)+"E)")
 		} else if vs.Items[i].Pay == "nilitem" && n.PrepShape == "anys" {
 			toks = append(toks, "nil")
+		} else if d := vs.Items[i].DupOf; d > 0 && d-1 < i {
+			toks = append(toks, toks[d-1])
 		} else {
 			toks = append(toks, itemTok(n.ID, v, i))
 		}
